@@ -14,6 +14,8 @@ R20.3  validated-return functions (enum member names): the return is dominated b
 R20.2  de-duplication soundness per namespace: membership test in an accumulating set, rename in a loop until unused,
        the final name recorded; sites: dataclass fields, enum members, class names, module stems, operation methods,
        operation parameters
+R20.14 every signature builder that derives argument names from the operation's parameters de-collides them (a second builder that sanitises `param.name`
+       itself emits `def f(self, id_: str, id_: int)` / a second `content_type`: SyntaxError at import)                    [= R1.25; finding on the pinned tree]
 R20.13 a model class never takes a name the endpoint modules import and use themselves (Protocol, HttpTransport, the exception aliases ...): every such
        name is in the table the models emitter's class-name de-collision refuses                                         [= R1.24 / R6.15 / R13.13]
 R20.12 the tag attribute names of APIClient are kept apart from the names the class uses itself (every fixed member name is refused by the sanitiser) [= R7.14]
@@ -94,6 +96,7 @@ def run(repo: Repo, rep: Report, tier: str) -> None:
     # R20.6: tags are the one namespace without a de-duplication step - two tag groups never derive the same module / class / attribute
     # name because the grouping key is at least as coarse as those names                                                   [= R7.7]
     _guarded(rep, rule_models_spare_endpoint_names, repo, rep, "R20.13")
+    _guarded(rep, rule_signature_builders_decollide, repo, rep, "R20.14")
     _reuse20(repo, rep, "c07", {"R7.7": "R20.6", "R7.14": "R20.12"})  # R20.12: a tag attribute never takes the name of a member of APIClient
     # R20.7: a reference is resolved by the exact name it carries: when two schemas differ only by what sanitising removes, a lookup
     # under the sanitised name returns the other schema                                                                     [= R2.10]
@@ -607,3 +610,41 @@ def rule_models_spare_endpoint_names(repo: Repo, rep, rule: str = "R20.13") -> N
                       f"error status raises TypeError instead of an HTTPError ({len(missing)} unprotected name(s))", emit.loc(consulted[0]) if consulted else emit.loc())
     else:
         rep.ok(rule, sub, f"{len(need)} names ({len(aliases)} exception aliases, {sorted(used)}) are refused by the class-name de-collision", emit.loc(consulted[0]))
+
+
+# ------------------------------------------------------------------------------------------------ R20.14 every signature builder de-collides argument names
+def rule_signature_builders_decollide(repo: Repo, rep, rule: str = "R20.14") -> None:
+    """`EndpointParameterProcessor.process_parameters` makes the Python names of an operation's parameters unique (and keeps them apart from the body
+    argument).  A function that builds a signature from `op.parameters` on its own - `f"{sanitize_method_name(param.name)}: {type}"` appended to the
+    argument list in a loop over the parameters - has none of that: path `id` + query `id`, a header `Content-Type` next to the builder's own
+    `content_type`, a query parameter `body` give the same argument twice (`ast.parse` accepts it, `compile()` / import does not).  Decided over
+    visit/endpoint: every loop over `<op>.parameters` that appends such a text tests the name against a collection of used names first."""
+    n = 0
+    for mn, mod in sorted(repo.modules.items()):
+        if ".visit.endpoint" not in mn:
+            continue
+        for q, fn in sorted(mod.functions.items()):
+            if "<locals>" in q:
+                continue
+            for lp in [x for x in own_nodes(fn.node) if isinstance(x, ast.For) and isinstance(x.iter, ast.Attribute) and x.iter.attr == "parameters" and isinstance(x.target, ast.Name)]:
+                pv = lp.target.id
+                derived = {t.id for st in ast.walk(lp) if isinstance(st, ast.Assign) and isinstance(st.value, ast.Call) and isinstance(st.value.func, ast.Attribute)
+                           and st.value.func.attr.startswith("sanitize_") and any(isinstance(a, ast.Attribute) and a.attr == "name" and isinstance(a.value, ast.Name) and a.value.id == pv for a in st.value.args)
+                           for t in st.targets if isinstance(t, ast.Name)}
+                apps = [c for c in ast.walk(lp) if isinstance(c, ast.Call) and isinstance(c.func, ast.Attribute) and c.func.attr == "append" and c.args and isinstance(c.args[0], ast.JoinedStr)
+                        and any(isinstance(v, ast.FormattedValue) and isinstance(v.value, ast.Name) and v.value.id in derived for v in c.args[0].values)
+                        and ":" in "".join(v.value for v in c.args[0].values if isinstance(v, ast.Constant) and isinstance(v.value, str))]
+                if not derived or not apps:
+                    continue
+                n += 1
+                probed = any(isinstance(x, ast.Compare) and len(x.ops) == 1 and isinstance(x.ops[0], (ast.In, ast.NotIn)) and isinstance(x.left, ast.Name) and x.left.id in derived for x in ast.walk(lp))
+                sub = f"{mod.relpath}:{q} argument names built from `{norm(lp.iter)}`"
+                if probed:
+                    rep.ok(rule, sub, "the derived name is tested against the names already used before it is appended", fn.loc(lp))
+                else:
+                    rep.violation(rule, sub, f"{fn.fq}|signature-builder-without-decollision",
+                                  f"`{norm(apps[0])[:70]}`: the argument name is the sanitised parameter name as it is - two parameters that sanitise alike (path `id` + query `id`), "
+                                  "or a parameter named like an argument this builder adds itself (`content_type`, `body`, `files`), give `def f(self, x, x)`: the endpoint, mock and client "
+                                  "modules do not compile", fn.loc(apps[0]))
+    if n == 0:
+        rep.ok(rule, "visit/endpoint signature builders", "no function builds argument names from `op.parameters` on its own (all go through the parameter processor)", "src/pyopenapi_gen/visit/endpoint:1")
